@@ -1,18 +1,12 @@
-from ..engine import Case
-from . import c10
-
-
-FAILS = [({'VF_FAILMASK': 1}, 'f0'), ({'VF_FAILMASK': 2}, 'f1'), ({'VF_FAILMASK': 4}, 'f2'), ({'VF_FAILMASK': 0, 'VF_FAILFROM': 0}, 'ff0'), ({'VF_FAILMASK': 0, 'VF_FAILFROM': 1}, 'ff1')]
+from . import _agg
 
 
 def cases(tier):
-    out = []
-    for fd, fs in FAILS + [({'VF_FAILMASK': 0}, 'nofail')]:
-        d = {'VF_TS': None, 'VF_ALLOCFAIL': None}
-        d.update(fd)
-        out += c10.vec_cases(tier, prefix='c14.%s' % fs, extra_defs=d, sizes=[1] if tier == 'quick' else [1, 3], maxes=[0, 2] if tier == 'quick' else [0, 1, 2, 3], timeout=600)
-    return out
+    return _agg.cases(tier, 'lock')
 
 
 def meta(tier):
-    return {'level': 'model_checking', 'bounds': 'wip', 'explanation': 'wip'}
+    return _agg.meta(tier, 'lock',
+                     'Every public operation is called on a thread-safe container from any small valid state with fully symbolic arguments and with an allocation failure injected at each position (constant per query); '
+                     'the lock model counts trylock/unlock: the depth after the call must equal the depth before it on every path the solver can reach.',
+                     extra_assumptions=['pthread_mutex_trylock/unlock are replaced by the counting model of stubs.h (recursive-mutex semantics, unlock by non-owner is EPERM and changes nothing)'])
